@@ -377,9 +377,9 @@ theorem exchangeStep_involutive (gi gj : Genotype) (li lj : ℚ) :
 
 /-- the option of `base_step` that proposes allele `a` at `(h, j)` -/
 def baseOpt (P : AsmParams) (g : Genotype) (h j a : ℕ) : MoveOption :=
-  { target := setAllele g h j a,
-    R := asmW P (setAllele g h j a) / asmW P g,
-    Q := (copies (setAllele g h j a) h : ℚ) / (copies g h : ℚ) }
+  { target := setAlleleAt g h j a,
+    R := asmW P (setAlleleAt g h j a) / asmW P g,
+    Q := (copies (setAlleleAt g h j a) h : ℚ) / (copies g h : ℚ) }
 
 theorem baseStepOptions_eq (P : AsmParams) (g : Genotype) (h j nA : ℕ) :
     baseStepOptions P g h j nA
@@ -414,10 +414,10 @@ theorem mem_baseStepOptions (P : AsmParams) (g : Genotype) (h j nA a : ℕ) (ha 
 
 theorem setAllele_split (g : Genotype) (h j a : ℕ) (hh : h < g.length) :
     g = g.take h ++ g[h] :: g.drop (h + 1) ∧
-    setAllele g h j a = g.take h ++ (g[h].set j a) :: g.drop (h + 1) := by
+    setAlleleAt g h j a = g.take h ++ (g[h].set j a) :: g.drop (h + 1) := by
   constructor
   · rw [List.getElem_cons_drop hh, List.take_append_drop]
-  · unfold setAllele
+  · unfold setAlleleAt
     rw [List.getD_eq_getElem?_getD, List.getElem?_eq_getElem hh]
     simp only [Option.getD_some]
     rw [List.set_eq_take_append_cons_drop, if_pos hh]
@@ -430,14 +430,14 @@ theorem getD_row_set (g : Genotype) (h : ℕ) (hh : h < g.length) (x : Hap) : (g
   simp [List.getD_eq_getElem?_getD, hh]
 
 theorem alleleAt_setAllele (g : Genotype) (h j a : ℕ) (hh : h < g.length) (hj : j < (g[h]).length) :
-    alleleAt (setAllele g h j a) h j = a := by
-  unfold alleleAt setAllele
+    alleleAt (setAlleleAt g h j a) h j = a := by
+  unfold alleleAt setAlleleAt
   rw [getD_row g h hh, getD_row_set g h hh]
   simp [List.getD_eq_getElem?_getD, hj]
 
 theorem setAllele_setAllele (g : Genotype) (h j a : ℕ) (hh : h < g.length) (hj : j < (g[h]).length) :
-    setAllele (setAllele g h j a) h j (alleleAt g h j) = g := by
-  unfold setAllele alleleAt
+    setAlleleAt (setAlleleAt g h j a) h j (alleleAt g h j) = g := by
+  unfold setAlleleAt alleleAt
   rw [getD_row g h hh, getD_row_set g h hh]
   have e2 : (g[h]).getD j 0 = (g[h])[j] := by simp [List.getD_eq_getElem?_getD, hj]
   rw [e2, List.set_set, List.set_set, List.set_getElem_self, List.set_getElem_self]
@@ -449,8 +449,8 @@ theorem setAllele_setAllele (g : Genotype) (h j a : ℕ) (hh : h < g.length) (hj
 theorem base_step_literal_db (P : AsmParams) (T : ℝ) (g : Genotype) (h j nA a : ℕ)
     (hh : h < g.length) (hj : j < (g[h]).length) (ha : a < nA) (hc : alleleAt g h j < nA)
     (hne : a ≠ alleleAt g h j)
-    (pg : 0 < asmW P g) (pg' : 0 < asmW P (setAllele g h j a)) :
-    let g' := setAllele g h j a
+    (pg : 0 < asmW P g) (pg' : 0 < asmW P (setAlleleAt g h j a)) :
+    let g' := setAlleleAt g h j a
     let o := baseOpt P g h j a
     let o' := baseOpt P g' h j (alleleAt g h j)
     o ∈ baseStepOptions P g h j nA ∧ o' ∈ baseStepOptions P g' h j nA ∧ o.target = g' ∧ o'.target = g ∧
@@ -460,7 +460,7 @@ theorem base_step_literal_db (P : AsmParams) (T : ℝ) (g : Genotype) (h j nA a 
         * ((1 / ((baseStepOptions P g' h j nA).length : ℝ)) * min 1 (((o'.R : ℚ) : ℝ) ^ T * ((o'.Q : ℚ) : ℝ))) := by
   intro g' o o'
   have hcur' : alleleAt g' h j = a := alleleAt_setAllele g h j a hh hj
-  have hback : setAllele g' h j (alleleAt g h j) = g := setAllele_setAllele g h j a hh hj
+  have hback : setAlleleAt g' h j (alleleAt g h j) = g := setAllele_setAllele g h j a hh hj
   refine ⟨mem_baseStepOptions P g h j nA a ha hne, ?_, rfl, hback, ?_⟩
   · exact mem_baseStepOptions P g' h j nA _ hc (by rw [hcur']; exact Ne.symm hne)
   · rw [baseStepOptions_length P g h j nA hc,
@@ -473,8 +473,8 @@ theorem base_step_literal_db (P : AsmParams) (T : ℝ) (g : Genotype) (h j nA a 
     have cx : @List.count Hap instBEqOfDecidableEq g[h] (g.take h ++ g[h] :: g.drop (h + 1)) = copies g h := by
       rw [copies_eq_count, hx, ← s1]
     have hy : g'.getD h [] = g[h].set j a := by
-      show (setAllele g h j a).getD h [] = _
-      unfold setAllele; rw [hx]; exact getD_row_set g h hh _
+      show (setAlleleAt g h j a).getD h [] = _
+      unfold setAlleleAt; rw [hx]; exact getD_row_set g h hh _
     have cy : @List.count Hap instBEqOfDecidableEq (g[h].set j a)
         (g.take h ++ (g[h].set j a) :: g.drop (h + 1)) = copies g' h := by
       rw [copies_eq_count, hy, ← hg']
